@@ -7,6 +7,8 @@
      - importing a Loading module is an ImportError (cycle), a missing module the loader's error,
        an uncompilable one an ImportError; nothing is recorded for the latter two;
      - every module starts with all start-up names (the built-ins);
+     - calls and module bodies nest at most FRAMES_MAX deep: one more is an IndexError "Stack overflow."
+       (for an import: after the source was loaded and compiled; like every failed import it leaves nothing);
      - globals belong to the module whose source text contains the access (lexical), see ModLang.eval_spec.
    Definitions only. *)
 From Coq Require Import List String NArith Bool Arith.
@@ -43,7 +45,7 @@ Section Spec.
   Inductive decision :=
   | DSame                 (* the module of this path, already loaded *)
   | DRaise (e : error)
-  | DRun (b : Body).      (* first import: run the body, then `spec_finish` *)
+  | DRun (b : Body).      (* first import: `spec_begin`, run the body, then `spec_finish` *)
 
   Definition startup_globals : list (name * svalue) := map (fun b => (b, SBuiltin b)) startup_names.
 
@@ -64,12 +66,14 @@ Section Spec.
       | LoadOk src =>
         match compiler p src with
         | CompErr _ => (st1, DRaise (mkerr KImport [comp_head]))
-        | CompOk b =>
-          (mksstate (ainsert (s_mods st1) p (mksmod Loading startup_globals)) (s_loads st1) (p :: s_ran st1),
-           DRun b)
+        | CompOk b => (st1, DRun b)
         end
       end
     end.
+
+  (* the module's top-level code starts: the module is Loading, with the start-up names *)
+  Definition spec_begin (st : sstate) (p : path) : sstate :=
+    mksstate (ainsert (s_mods st) p (mksmod Loading startup_globals)) (s_loads st) (p :: s_ran st).
 
   Definition spec_finish (st : sstate) (p : path) (ok : bool) : sstate :=
     match alookup (s_mods st) p with
